@@ -39,7 +39,7 @@ def _install():
 
     def mkcall(name, args, kwargs):
         if name == 'add_jumper':
-            return {'op': 'add', 'b': str(kwargs.get('bib', '0')), 'h': 0}
+            return {'op': 'addq' if kwargs.get('order') in ('DQ', 'DNS') else 'add', 'b': str(kwargs.get('bib', '0')), 'h': 0}
         if name == 'set_bar_height':
             return {'op': 'bar', 'b': '', 'h': hj.cm(args[0] if args else kwargs.get('new_height'))}
         return {'op': hj._LETTER[name], 'b': str(args[0] if args else kwargs.get('bib')), 'h': 0}
